@@ -20,6 +20,11 @@ CLAIMED = {
   note="Assumed: the abstract Store contracts (DBStore is not yet verified against them), store coherence invariants (contiguous best chain, state index of best blocks, record/applied invariants) as preconditions, consensus.ApplyHeader index law and Block.Header().ID() == Block.ID(), reorgTo as arbitrary effect. Sequential reasoning under the manager mutex.",
   technique="contract-based deductive verification (VC generation over go/ssa + SMT, ghost abstract state, quantified loop invariants)",
   ref="DESIGN.md §3 C19, §7"),
+ "C04": dict(
+  text="UpdatesSince on the real Manager against the abstract Store: never more than max(maxBlocks,0) updates, nil slices on every error return, no panic (incl. pruned or missing records), reverts only while the cursor is off the best chain and applies only once it is on it (loop invariant: once on the best chain the cursor stays on it), every update ends at the cursor (contiguity: revert updates carry the parent state whose index becomes the cursor, apply updates carry the block whose id is the next best index), and when the budget is not exhausted the last update ends at the manager's tip; AddBlocks delivers no listener callback on any error return. The ledger content of the diffs (consensus) and concurrent polls are out of reach; the chunked stale-subscriber scenario is replayed on the real code (bounded).",
+  note="Assumed: abstract Store contracts and store coherence as preconditions (contiguous best chain, no block with the zero id), consensus.ApplyBlock/RevertBlock as deterministic functions with ApplyBlock(..).Index.ID == block id, listeners modelled as arbitrary calls made with the lock released.",
+  technique="contract-based deductive verification (VC generation over go/ssa + SMT, loop invariants over the abstract store)",
+  ref="DESIGN.md §3 C04, §7"),
 }
 
 NOT_APPLICABLE = {
